@@ -29,6 +29,8 @@ def impl_toy_gni(cfg, x, timeout=20):
         try:
             with common.time_limit(timeout):
                 imf, flag = sift.get_next_imf(X, **toys.imf_opts(cfg))
+        except toys.ToyDomainError:
+            return [-8], True
         except Exception as e:
             code = common.exc_code(e)
             return ([5, toy.calls] if code == 5 else [-code]), False
@@ -50,7 +52,7 @@ def impl_toy_sift(cfg, x, timeout=30, variant='sift', extra=None):
         try:
             with common.time_limit(timeout):
                 imf = getattr(sift, variant)(X, **kw)
-        except common.Timeout:
+        except (common.Timeout, toys.ToyDomainError):
             return [0, 1], True
         except Exception as e:
             if common.exc_code(e) == 5:
